@@ -308,6 +308,19 @@ fn shutdown_scenario(spawn: bool, extra_clone: bool) -> ExecResult {
 }
 
 pub fn main(args: &Args) -> i32 {
+    if let Some(p) = &args.replay {
+        return crate::sched::replay(p, |name, j| {
+            if name.starts_with("drop-handles") {
+                let mask = j["mask"].as_u64().unwrap_or(0) as u32;
+                let ws = j["with_server"].as_bool().unwrap_or(false);
+                Some(Box::new(move || drop_scenario(mask, ws)))
+            } else {
+                let spawn = j["spawn"].as_bool().unwrap_or(true);
+                let ec = j["extra_clone"].as_bool().unwrap_or(false);
+                Some(Box::new(move || shutdown_scenario(spawn, ec)))
+            }
+        });
+    }
     let report = Report::new("C39", args.tier, args.seed, "model_checking");
     let totals = Mutex::new(Totals::default());
     let quick = args.tier == vcommon::Tier::Quick;
